@@ -207,6 +207,60 @@ def enc_py(case):
     return str(ENC_ID.get(norm_enc(got), 0))
 
 
+def content_of(explicit, body):
+    if explicit == 'charset':
+        return ('@charset "latin-1"; ' + body).encode('latin-1'), 'iso8859-1'
+    if explicit == 'bom':
+        return b'\xef\xbb\xbf' + body.encode('utf-8'), 'utf-8'
+    return body.encode('ascii'), None
+
+
+def enc2_case(case):
+    """('enc2', override, http1, explicit1, parent1, http2, explicit2): encoding of the sheet imported by an
+    imported sheet"""
+    cp = _cp()
+    _, override, http1, ex1, parent, http2, ex2 = case
+    c1, e1 = content_of(ex1, '@import "b.css"; i { top: 1px }')
+    if ex1 == 'charset':
+        c1 = ('@charset "latin-1"; @import "b.css"; i { top: 1px }').encode('latin-1')
+    c2, e2 = content_of(ex2, 'j { top: 2px }')
+    top = ('@charset "%s"; ' % parent if parent else '') + '@import "a.css";'
+
+    def fetcher(url):
+        return (http1, c1) if url.endswith('a.css') else (http2, c2)
+    kw = {'encoding': override} if override else {}
+    sheet = cp.CSSParser(fetcher=fetcher).parseString(top.encode(override or parent or 'ascii'), href='http://h/s.css', **kw)
+    a = [r for r in sheet.cssRules if r.type == r.IMPORT_RULE][0].styleSheet
+    b = [r for r in a.cssRules if r.type == r.IMPORT_RULE][0].styleSheet
+    return b.encoding, (override, http1, e1, parent, http2, e2)
+
+
+def enc2_oracle(case):
+    got, (override, http1, e1, parent, http2, e2) = enc2_case(case)
+    if override:
+        exp = override
+    else:
+        exp = enc_expected(None, http2, e2, enc_expected(None, http1, e1, parent) if (http1 or e1 or parent) else None)
+    if norm_enc(got) != norm_enc(exp):
+        return ('nested imported sheet decoded as %r; override=%r, first level http=%r content=%r parent=%r, second level '
+                'http=%r content=%r: the documented priority gives %r' % (got, override, http1, e1, parent, http2, e2, exp))
+    return ''
+
+
+def enc2_line(case):
+    _, override, http1, ex1, parent, http2, ex2 = case
+
+    def cid(e):
+        return str(ENC_ID[norm_enc(e)] if norm_enc(e) in ENC_ID else ENC_ID[e]) if e else '-'
+    exm = {'charset': '2', 'bom': '1', None: '-'}
+    return 'encsel2 %s %s %s %s %s %s' % (cid(override), cid(http1), exm[ex1], cid(parent), cid(http2), exm[ex2])
+
+
+def enc2_py(case):
+    got, _ = enc2_case(case)
+    return str(ENC_ID.get(norm_enc(got), 0))
+
+
 # ------------------------------------------------------------------ urljoin
 
 def url_cases(tier, seed):
@@ -401,6 +455,8 @@ def oracle(case, _e=None):
         return load_case(case)
     if k == 'enc':
         return enc_oracle(case)
+    if k == 'enc2':
+        return enc2_oracle(case)
     if k == 'url':
         return url_oracle(case)
     if k == 'flat':
@@ -440,6 +496,13 @@ def gen_cases(tier, seed):
             for ex in [None, 'charset', 'bom']:
                 for parent in [None, 'latin-1', 'utf-8', 'cp1252']:
                     ecases.append(('enc', ov, http, ex, parent))
+    for ov in [None, 'latin-1']:
+        for http1 in [None, 'utf-8', 'cp1252']:
+            for ex1 in [None, 'charset']:
+                for parent in [None, 'latin-1']:
+                    for http2 in [None, 'utf-8', 'cp1252']:
+                        for ex2 in [None, 'charset', 'bom']:
+                            ecases.append(('enc2', ov, http1, ex1, parent, http2, ex2))
     fcases = []
     for n in (1, 2, 3):
         for combo in itertools.product([('all', True), ('all', False), ('print', True), ('print', False), ('tv, screen', True)], repeat=n):
@@ -455,7 +518,8 @@ def run(tier, seed):
     lcases, ecases, fcases, dist = gen_cases(tier, seed)
     ucases = url_cases(tier, seed)
     res = corr.run('c20o', lcases + fcases, lambda c: 'numval -', lambda c: '~', oracle, chunk=150)
-    resE = corr.run('c20e', ecases, enc_line, enc_py, oracle, chunk=40)
+    resE = corr.run('c20e', ecases, lambda c: enc_line(c) if c[0] == 'enc' else enc2_line(c),
+                    lambda c: enc_py(c) if c[0] == 'enc' else enc2_py(c), oracle, chunk=40)
     resU = corr.run('c20u', ucases, url_line, url_py, oracle, chunk=400)
     rcases = [c for c in ucases if '//' not in c[1] and '//' not in c[2]]
     resR = corr.run('c20r', rcases, rfc_line, rfc_py, None, chunk=400)
@@ -484,7 +548,8 @@ def run(tier, seed):
                 'forms x 10 behaviours) under both loading behaviours; checked: parse completes, every @import kept with its '
                 'href, hrefFound, failed => empty sheet, loaded => content and href of the imported sheet (nested: resolved '
                 'against the imported sheet), the fetcher is called with exactly the resolved URLs, cssText readable; '
-                'enc: the full table override(3) x HTTP(4) x BOM/@charset/none(3) x parent @charset(4); url: 7 bases x 21 '
+                'enc: the full table override(3) x HTTP(4) x BOM/@charset/none(3) x parent @charset(4), and for a sheet imported by an '
+                'imported sheet override(2) x HTTP1(3) x content1(2) x parent(2) x HTTP2(3) x content2(3); url: 7 bases x 21 '
                 'references + random segment lists against the model and against RFC 3986; flat: resolveImports over all '
                 'sequences of <= 3 imports from {all,print,list} x {loaded, not}; a two-sheet import cycle',
         'traces_validated_against_impl': resE['n'] + resU['n'] + resO['n'] + resR['n'] + 1,
